@@ -140,7 +140,7 @@ func GenL234(t *rapid.T) L234 {
 		p.HasVlan = rapid.IntRange(0, 2).Draw(t, "hasvlan") == 0
 		if p.HasVlan {
 			// priority/DEI zero in half of the cases (then the tag control field equals the VLAN id)
-			p.TCI = rapid.OneOf(rapid.Uint16Range(0, 0xfff), rapid.Uint16()).Draw(t, "tci")
+			p.TCI = rapid.OneOf(rapid.Uint16Range(0, 0xfff), rapid.Uint16(), rapid.SampledFrom([]uint16{0, 0, 1, 0xfff, 0x1000, 0x2000, 0xe000, 0xefff, 0xf000, 0xffff, 0x8100, 0x0800})).Draw(t, "tci")
 		}
 		p.IPVer = rapid.SampledFrom([]int{4, 6}).Draw(t, "ipver")
 	case 11:
